@@ -19,7 +19,7 @@ def gen_cases(rng, tier):
         same_len = rng.random() < 0.8
         l2 = l if same_len else rand_len(rng, tier)
         b = rand_bits(rng, l2)
-        other = rng.choice(CLASSES + ['str', 'list', 'bitarray', 'self', 'self'])
+        other = rng.choice(CLASSES + ['str', 'list', 'bitarray', 'self', 'self', 'gen_truthy', 'iter'])
         form = rng.choice(['pure', 'pure', 'inplace', 'reflected'])
         if other == 'bitarray' and form == 'reflected': form = 'pure'   # bitarray.__and__(Bits) raises TypeError itself: not bitstring's behaviour
         yield {'op': rng.choice(OPS), 'cls': rng.choice(CLASSES), 'a': a, 'b': a if other == 'self' else b, 'other': other,
